@@ -219,7 +219,15 @@ fn sanitize(s: &str) -> String {
         .chars()
         .map(|c| if c.is_ascii_alphanumeric() || c == '-' || c == '.' { c } else { '_' })
         .collect();
-    out.truncate(120);
+    if out.len() > 100 || out != s {
+        // keep a prefix and add a hash of the whole signature so that distinct signatures never
+        // share a replay file
+        use std::hash::{Hash, Hasher};
+        let mut h = std::collections::hash_map::DefaultHasher::new();
+        s.hash(&mut h);
+        out.truncate(100);
+        out.push_str(&format!("_{:016x}", h.finish()));
+    }
     out
 }
 
